@@ -437,15 +437,22 @@ def _divisions_inside_repeat(b):
     """divisions set before a repeated section and changed inside it: every copy keeps the duration IN QUARTERS of its original"""
     sc = _sc()
     from gen import oracles as O
-    for name, q0, q1, spans, rep in (("four_then_eight_divisions_changed_inside_the_repeat", 4, 8, [(0, 16), (16, 32), (32, 64), (64, 96)], (16, 64)),
-                                     ("six_then_four_divisions_changed_inside_the_repeat", 6, 4, [(0, 24), (24, 48), (48, 64), (64, 80)], (24, 64))):
+    for name, q0, q1, spans, rep, later in (("four_then_eight_divisions_changed_inside_the_repeat", 4, 8, [(0, 16), (16, 32), (32, 64), (64, 96)], (16, 64), ()),
+                                            ("six_then_four_divisions_changed_inside_the_repeat", 6, 4, [(0, 24), (24, 48), (48, 64), (64, 80)], (24, 64), ()),
+                                            # three values: one before the repeated section, one from its start, one well after its end
+                                            ("two_then_four_at_the_repeat_then_eight_after_it", 2, 4, [(0, 8), (8, 24), (8, 24), (24, 40), (40, 56), (56, 88)], (8, 40), ((56, 8),)),
+                                            ("three_changes_the_last_two_after_the_repeat", 2, 4, [(0, 8), (8, 24), (8, 24), (24, 40), (40, 56), (56, 88), (88, 100)], (8, 40), ((56, 8), (88, 3)))):
+        spans = [x for i_, x in enumerate(spans) if x not in spans[:i_]]
+
         def mk():
             p = sc.Part("P", quarter_duration=q0)
-            p.set_quarter_duration(spans[2][0], q1)
+            p.set_quarter_duration(spans[1][0] if later else spans[2][0], q1)
+            for t_, q_ in later:
+                p.set_quarter_duration(t_, q_)
             p.add(sc.TimeSignature(4, 4), 0)
             for i, (s_, e_) in enumerate(spans):
                 p.add(sc.Measure(number=i + 1), s_, e_)
-                p.add(sc.Note("CDEF"[i], 4, id="n%d" % i, voice=1, staff=1), s_, e_)
+                p.add(sc.Note("CDEFGAB"[i], 4, id="n%d" % i, voice=1, staff=1), s_, e_)
             p.add(sc.Repeat(), rep[0], rep[1])
             return p
         for fn_name in ("unfold_part_maximal", "unfold_part_minimal"):
